@@ -122,6 +122,10 @@ type Node struct {
 	MaxContent     int64 // http.Handler.MaxContentLength (0: the library default of 65535)
 	VerifyOV       func(context.Context, fdo.Voucher) error
 
+	// Roles, when non-empty, makes this a partial deployment: the HTTP handler
+	// gets a responder only for the listed protocols ("DI", "TO0", "TO1",
+	// "TO2"); the others stay nil, which the handler documents as unsupported.
+	Roles []string
 	// WrapTO2 optionally wraps the TO2 responder (tunnel taps, rogue owner).
 	WrapTO2 func(protocol.Responder) protocol.Responder
 
@@ -211,7 +215,30 @@ func (n *Node) Rebuild() {
 	if n.WrapTO2 != nil {
 		to2 = n.WrapTO2(n.TO2)
 	}
-	n.handler = &fdo_http.Handler{Tokens: st, DIResponder: n.DI, TO0Responder: n.TO0, TO1Responder: n.TO1, TO2Responder: to2, MaxContentLength: n.MaxContent}
+	h := &fdo_http.Handler{Tokens: st, DIResponder: n.DI, TO0Responder: n.TO0, TO1Responder: n.TO1, TO2Responder: to2, MaxContentLength: n.MaxContent}
+	n.handler = h
+	if len(n.Roles) > 0 {
+		has := func(r string) bool {
+			for _, x := range n.Roles {
+				if x == r {
+					return true
+				}
+			}
+			return false
+		}
+		if !has("DI") {
+			h.DIResponder = nil
+		}
+		if !has("TO0") {
+			h.TO0Responder = nil
+		}
+		if !has("TO1") {
+			h.TO1Responder = nil
+		}
+		if !has("TO2") {
+			h.TO2Responder = nil
+		}
+	}
 }
 
 func (n *Node) rvinfo() [][]protocol.RvInstruction {
